@@ -29,7 +29,7 @@ fork, a stale branch and an orphan branch.
 import BHS.Model.Query
 import BHS.Spec.BestChain
 import BHS.Proofs.QueryTreeCommon
-import Driver.Ops.Chain
+import Driver.Ops.ChainCore
 import BHS.Proofs.Fields
 import BHS.Props.C01
 
@@ -363,10 +363,10 @@ given — see `C04_reads_pure`. -/
 def readOps : List String := ["tip", "state", "byheight", "tips", "ancestors", "common"]
 
 /-- whatever a read operation answers, the model state (store and configuration) after it is the state before it -/
-theorem C04_reads_pure (st st' : Driver.Ops.Chain.S) (w : String) (args : List String) (out : String)
-    (hw : w ∈ readOps) (h : Driver.Ops.Chain.handle st (w :: args) = some (st', out)) : st' = st := by
+theorem C04_reads_pure (ck : Driver.Ops.Chain.Checks) (st st' : Driver.Ops.Chain.S) (w : String) (args : List String)
+    (out : String) (hw : w ∈ readOps) (h : Driver.Ops.Chain.handleWith ck st (w :: args) = some (st', out)) : st' = st := by
   simp only [readOps, List.mem_cons, List.not_mem_nil, or_false] at hw
-  unfold Driver.Ops.Chain.handle at h
+  unfold Driver.Ops.Chain.handleWith at h
   split at h
   all_goals first
     | (rename_i heq; simp only [List.cons.injEq] at heq; obtain ⟨rfl, _⟩ := heq; simp at hw; done)
@@ -374,19 +374,19 @@ theorem C04_reads_pure (st st' : Driver.Ops.Chain.S) (w : String) (args : List S
     | simp at h
 
 /-- non-vacuity: every read operation is answered (with the unchanged state) in every state -/
-example (st : Driver.Ops.Chain.S) : ∃ out, Driver.Ops.Chain.handle st ["tip"] = some (st, out) := ⟨_, rfl⟩
-example (st : Driver.Ops.Chain.S) (h : String) : ∃ out, Driver.Ops.Chain.handle st ["state", h] = some (st, out) :=
+example (ck : Driver.Ops.Chain.Checks) (st : Driver.Ops.Chain.S) : ∃ out, Driver.Ops.Chain.handleWith ck st ["tip"] = some (st, out) := ⟨_, rfl⟩
+example (ck : Driver.Ops.Chain.Checks) (st : Driver.Ops.Chain.S) (h : String) : ∃ out, Driver.Ops.Chain.handleWith ck st ["state", h] = some (st, out) :=
   ⟨_, rfl⟩
-example (st : Driver.Ops.Chain.S) : ∃ out, Driver.Ops.Chain.handle st ["tips"] = some (st, out) := ⟨_, rfl⟩
-example (st : Driver.Ops.Chain.S) (a b : String) :
-    ∃ out, Driver.Ops.Chain.handle st ["byheight", a, b] = some (st, out) := by
-  simp only [Driver.Ops.Chain.handle]; split <;> exact ⟨_, rfl⟩
-example (st : Driver.Ops.Chain.S) (a b : String) :
-    ∃ out, Driver.Ops.Chain.handle st ["ancestors", a, b] = some (st, out) := by
-  simp only [Driver.Ops.Chain.handle]; split <;> exact ⟨_, rfl⟩
-example (st : Driver.Ops.Chain.S) (hs : List String) :
-    ∃ out, Driver.Ops.Chain.handle st ("common" :: hs) = some (st, out) := by
-  simp only [Driver.Ops.Chain.handle]; split <;> exact ⟨_, rfl⟩
+example (ck : Driver.Ops.Chain.Checks) (st : Driver.Ops.Chain.S) : ∃ out, Driver.Ops.Chain.handleWith ck st ["tips"] = some (st, out) := ⟨_, rfl⟩
+example (ck : Driver.Ops.Chain.Checks) (st : Driver.Ops.Chain.S) (a b : String) :
+    ∃ out, Driver.Ops.Chain.handleWith ck st ["byheight", a, b] = some (st, out) := by
+  simp only [Driver.Ops.Chain.handleWith]; split <;> exact ⟨_, rfl⟩
+example (ck : Driver.Ops.Chain.Checks) (st : Driver.Ops.Chain.S) (a b : String) :
+    ∃ out, Driver.Ops.Chain.handleWith ck st ["ancestors", a, b] = some (st, out) := by
+  simp only [Driver.Ops.Chain.handleWith]; split <;> exact ⟨_, rfl⟩
+example (ck : Driver.Ops.Chain.Checks) (st : Driver.Ops.Chain.S) (hs : List String) :
+    ∃ out, Driver.Ops.Chain.handleWith ck st ("common" :: hs) = some (st, out) := by
+  simp only [Driver.Ops.Chain.handleWith]; split <;> exact ⟨_, rfl⟩
 
 /-! ### for every store reachable by ingestion
 The theorems above restated for `run cfg [g] hist` — the store after ANY ingestion history (reorganisations, stale
